@@ -36,7 +36,7 @@ Fixpoint bitset_conds (parts : list expr) (i : Z) : option (list expr) :=
   | _ => None
   end.
 
-(* digits '.' digits, with an optional sign: the %f rendering of a FloatVal *)
+(* digits '.' digits, with an optional sign: the text of a FloatVal with a fraction *)
 Fixpoint all_digits (s : string) : bool :=
   match s with EmptyString => true | String c r => is_digit c && all_digits r end.
 Fixpoint float_tail (s : string) (seen : bool) : bool :=
@@ -78,6 +78,10 @@ Section PREP.
     | LOp op cl =>
       match cl with
       | [Id x; StrV s] => if suffixb "date" x then LOp op [Id x; date_lit days s] else e
+      (* a FloatVal whose text has no fraction ("7") reads back as an integer: it is a float literal *)
+      | [Fn name args; IntV z] =>
+        if String.eqb name "toFloat64OrNull" then LOp op [Fn name (map (prep_e env) args); FloatV (string_of_Z z)]
+        else LOp op (map (prep_e env) cl)
       | _ => LOp op (map (prep_e env) cl)
       end
     | Not x => Not (prep_e env x)
